@@ -205,7 +205,7 @@ def run_hist(key):
         except Exception as e:
             res["notes"]["rejected_updates"] = res["notes"].get("rejected_updates", 0) + 1
             if isinstance(e, H.UpdateTimeout):
-                V(res, key, "update_returns", {"exception": "UpdateTimeout"}, hist=hist)
+                res["notes"]["updates_over_cpu_limit"] = res["notes"].get("updates_over_cpu_limit", 0) + 1
                 raise H.StopExploration()
             return None
         child.F, child.t = np.asarray(F), t1
